@@ -333,7 +333,7 @@ def compare(v, root, objs, with_ids=True):
                    "(t, u, n.s., None; thorough: symbolic) vary; ids fresh; Properties without values")
 def document_names_ob(v):
     """Issues of a Document == reference rules 101, 102, 202, 203, 300 (names and types)."""
-    root, objs, secs, props = build_document(v, "doc", vary_ids=False)
+    root, objs, secs, props = build_document(v, "doc", vary_ids=False, full=False)
     compare(v, root, objs)
 
 
@@ -417,10 +417,10 @@ def standalone_ob(v):
         return
     # names/types vary without decoration, or fixed names with decorated Properties (a sum, not a product)
     if v.bool("decorate"):
-        root, objs, secs, props = build_document(v, "sec", vary_names=False, vary_ids=False)
+        root, objs, secs, props = build_document(v, "sec", vary_names=False, vary_ids=False, full=False)
         decorate_properties(v, props, secs)
     else:
-        root, objs, secs, props = build_document(v, "sec", vary_ids=False)
+        root, objs, secs, props = build_document(v, "sec", vary_ids=False, full=False)
     compare(v, root, objs, with_ids=False)
 
 
